@@ -266,7 +266,8 @@ TableDeviationNames ==
     { "Xlsx!HeaderPlaceholder",        \* empty first-row cells become the text 'Unnamed: <col>'
       "Epub!NestedTableGarbles",       \* a table containing a nested table loses its own cells
       "Xlsx!TableNameRowSkipped",      \* a first row with exactly one non-empty cell is dropped from the table
-      "Rtf!NeighbourTablesMerged" }    \* tables separated by less than ~20 characters of text are returned as one
+      "Rtf!NeighbourTablesMerged",
+      "Epub!CellInlineSpaced" }        \* text of adjacent inline elements in a cell is joined with a blank ("zq00 03x")    \* tables separated by less than ~20 characters of text are returned as one
 
 RECURSIVE TopTables(_)
 TopTables(bs) ==
@@ -286,7 +287,7 @@ CellIds(cell, fmt) ==
 \* an observed cell is a record [k |-> "ids" | "lit" | "val", v |-> token ids, s |-> other text / typed value]
 IsIds(c) == c.k = "ids"
 
-EmptyCell == [k |-> "ids", v |-> <<>>, s |-> ""]
+EmptyCell == [k |-> "ids", v |-> <<>>, s |-> "", v2 |-> <<>>]
 Max2(a, b) == IF a >= b THEN a ELSE b
 
 \* does the table's first row look like a caption row (exactly one non-empty cell, more than one column)?
@@ -302,6 +303,7 @@ GridMatches(t, fmt, g, dev) ==
                 oc  == IF j <= Len(g.grid[i]) THEN g.grid[i][j] ELSE EmptyCell
             IN \/ (IsIds(oc) /\ oc.v = src)                                         \* cell (i,j) in place
                \/ ("Xlsx!HeaderPlaceholder" \in dev /\ fmt = "xlsx" /\ i = 1 /\ src = <<>> /\ oc.k = "lit")
+               \/ ("Epub!CellInlineSpaced" \in dev /\ fmt = "epub" /\ oc.k = "lit" /\ oc.v2 = src)
     /\ g.dim[1] = Len(g.grid)                                                      \* get_dim() = shape of get_table()
     /\ g.dim[2] = (IF g.grid = <<>> THEN 0
                    ELSE LET m == CHOOSE i \in DOMAIN g.grid : \A j \in DOMAIN g.grid : Len(g.grid[j]) <= Len(g.grid[i])
